@@ -6,8 +6,8 @@ CONSTANTS
   FVals <- F4
   DVals <- D2
   MaxIters = 12
-  Degenerate = FALSE
-  StopOnExactRoot = FALSE
+  Degenerate = TRUE
+  StopOnExactRoot = TRUE
 INVARIANT TypeOK
 INVARIANT Contract
 INVARIANT RootInBracket
